@@ -38,6 +38,9 @@ struct Case {
     coalescing: String,
     read_chunk: usize,
     keepalive_everywhere: bool,
+    /// the router's own handler map is pre-filled by this many real `allocate` calls (stream-id exhaustion); `answer`
+    /// then indexes the callers that did get a stream id, in the order the peer saw them
+    prefill: usize,
 }
 
 const CUT_KINDS: [&str; 5] = ["eof", "read-error", "write-error", "silence", "silence-after-keepalive"];
@@ -58,7 +61,7 @@ fn breaks_connection(k: &str) -> bool {
 
 impl Case {
     fn to_json(&self, choices: &[usize]) -> Value {
-        json!({"leg":"router-faults","n":self.n,"answer":self.answer,"kind":self.kind,"cut":self.cut,"late":self.late,"coalescing":self.coalescing,"read_chunk":self.read_chunk,"keepalive_everywhere":self.keepalive_everywhere,"choices":choices})
+        json!({"leg":"router-faults","n":self.n,"answer":self.answer,"kind":self.kind,"cut":self.cut,"late":self.late,"coalescing":self.coalescing,"read_chunk":self.read_chunk,"keepalive_everywhere":self.keepalive_everywhere,"prefill":self.prefill,"choices":choices})
     }
     fn from_json(v: &Value) -> Case {
         Case {
@@ -70,6 +73,7 @@ impl Case {
             coalescing: v["coalescing"].as_str().unwrap_or("yield").to_string(),
             read_chunk: v["read_chunk"].as_u64().unwrap_or(0) as usize,
             keepalive_everywhere: v["keepalive_everywhere"].as_bool().unwrap_or(false),
+            prefill: v["prefill"].as_u64().unwrap_or(0) as usize,
         }
     }
 }
@@ -95,7 +99,7 @@ fn run_case(case: &Case, ch: &mut Chooser) -> (Result<(), String>, Run) {
             keepalive_interval: if with_keepalive { Some(Duration::from_millis(KEEPALIVE_INTERVAL_MS)) } else { None },
             keepalive_timeout: if with_keepalive { Some(Duration::from_millis(KEEPALIVE_TIMEOUT_MS)) } else { None },
             submit_channel_capacity: 0,
-            prefill: 0,
+            prefill: case.prefill,
         };
         let mut w = World::new(cfg, case.read_chunk);
         let r = drive(case, ch, &mut w, &mut run).await;
@@ -124,12 +128,26 @@ async fn drive(case: &Case, ch: &mut Chooser, w: &mut World, run: &mut Run) -> R
         }
     }
     let in_flight: Vec<usize> = w.held.iter().filter_map(|h| h.caller).collect();
-    if in_flight.len() != case.n {
-        return Err(format!("harness|only {} of {} requests reached the peer before the fault", in_flight.len(), case.n));
+    let expect_in_flight = if case.prefill > 0 { case.n.min(32768 - case.prefill) } else { case.n };
+    if in_flight.len() != expect_in_flight {
+        return Err(format!("harness|{} of {} requests reached the peer before the fault, expected {}", in_flight.len(), case.n, expect_in_flight));
     }
+    // with a pre-filled id space the callers beyond the free ids were refused at once; `answer` indexes the others
+    let answer: Vec<usize> = if case.prefill > 0 {
+        let mut v = Vec::new();
+        for &a in &case.answer {
+            match in_flight.get(a) {
+                Some(&c) => v.push(c),
+                None => return Err(format!("harness|answer index {a} but only {} requests are in flight", in_flight.len())),
+            }
+        }
+        v
+    } else {
+        case.answer.clone()
+    };
     // the byte stream the peer writes
     let mut frames: Vec<(usize, Vec<u8>)> = Vec::new();
-    for &c in &case.answer {
+    for &c in &answer {
         let h = w.held.iter().find(|h| h.caller == Some(c)).unwrap().clone();
         frames.push((c, w.response_frame(&h).encode()));
     }
@@ -363,6 +381,24 @@ async fn drive(case: &Case, ch: &mut Chooser, w: &mut World, run: &mut Run) -> R
             err_class
         ));
     }
+    if breaking && case.prefill > 0 {
+        // the pre-filled handlers are in-flight requests of this connection too: each must have been failed
+        let mut waiting = 0usize;
+        let mut first = None;
+        for i in 0..case.prefill {
+            match w.handle.prefilled(i) {
+                Some((_, hook::RxPoll::Error(_))) => {}
+                Some((s, other)) => {
+                    waiting += 1;
+                    first.get_or_insert((s, format!("{other:?}")));
+                }
+                None => return Err(format!("harness|pre-filled handler {i} is not observable")),
+            }
+        }
+        if waiting > 0 {
+            return Err(format!("hang-prefilled|{waiting} of the {} requests that occupy the pre-filled stream ids were not failed after the connection died (first: stream {:?}); error receiver: {err_class}; router ended: {}", case.prefill, first, w.router_done()));
+        }
+    }
     if breaking {
         if w.error_seen.is_none() {
             return Err("error-receiver:not-fired|every caller completed but the connection error receiver (what the pool listens on) never fired".into());
@@ -435,10 +471,10 @@ fn cases(thorough: bool) -> Vec<Case> {
                         for late in lates {
                             let chunks: Vec<usize> = vec![0, 1];
                             for read_chunk in chunks {
-                                v.push(Case { n, answer: answer.clone(), kind: kind.to_string(), cut, late, coalescing: co.to_string(), read_chunk, keepalive_everywhere: false });
+                                v.push(Case { n, answer: answer.clone(), kind: kind.to_string(), cut, late, coalescing: co.to_string(), read_chunk, keepalive_everywhere: false, prefill: 0 });
                                 if thorough && !is_silence(kind) && read_chunk == 0 {
                                     // the same fault with the keep-aliver armed (its select! and timers are then part of the joined router)
-                                    v.push(Case { n, answer: answer.clone(), kind: kind.to_string(), cut, late, coalescing: co.to_string(), read_chunk, keepalive_everywhere: true });
+                                    v.push(Case { n, answer: answer.clone(), kind: kind.to_string(), cut, late, coalescing: co.to_string(), read_chunk, keepalive_everywhere: true, prefill: 0 });
                                 }
                             }
                         }
@@ -446,13 +482,34 @@ fn cases(thorough: bool) -> Vec<Case> {
                 }
                 if co == "yield" {
                     for late in [false, true] {
-                        v.push(Case { n, answer: answer.clone(), kind: ORPHAN_OVERFLOW.to_string(), cut: 0, late, coalescing: co.to_string(), read_chunk: 0, keepalive_everywhere: false });
+                        v.push(Case { n, answer: answer.clone(), kind: ORPHAN_OVERFLOW.to_string(), cut: 0, late, coalescing: co.to_string(), read_chunk: 0, keepalive_everywhere: false, prefill: 0 });
                     }
                 }
                 for kind in BAD_KINDS {
                     for k in 0..=answer.len() {
                         for late in [false, true] {
-                            v.push(Case { n, answer: answer.clone(), kind: kind.to_string(), cut: k, late, coalescing: co.to_string(), read_chunk: 0, keepalive_everywhere: false });
+                            v.push(Case { n, answer: answer.clone(), kind: kind.to_string(), cut: k, late, coalescing: co.to_string(), read_chunk: 0, keepalive_everywhere: false, prefill: 0 });
+                        }
+                    }
+                }
+            }
+        }
+    }
+    // stream-id exhaustion x silent stall x keep-alive: the id space pre-filled with 32768-j real allocate calls, so that
+    // (j = free ids) the callers take the last ids, are refused, or leave exactly one for the keep-alive itself
+    for j in 0..=2usize {
+        for n in 1..=2usize {
+            let in_flight = n.min(j);
+            let mut answers: Vec<(Vec<usize>, Vec<usize>)> = vec![(vec![], vec![0])];
+            if in_flight >= 1 {
+                let total = frame_len(0);
+                answers.push((vec![0], if thorough { (0..=total).collect() } else { vec![4, total] }));
+            }
+            for (answer, cuts) in answers {
+                for cut in cuts {
+                    for kind in ["silence", "silence-after-keepalive"] {
+                        for late in [false, true] {
+                            v.push(Case { n, answer: answer.clone(), kind: kind.to_string(), cut, late, coalescing: "yield".into(), read_chunk: 0, keepalive_everywhere: false, prefill: 32768 - j });
                         }
                     }
                 }
@@ -464,6 +521,11 @@ fn cases(thorough: bool) -> Vec<Case> {
 
 fn main() {
     vcore::quiet_panics();
+    // the exhaustion cases build and drop 32768 channels per execution; keep glibc from returning that memory each time
+    unsafe {
+        libc::mallopt(libc::M_MMAP_THRESHOLD, 1 << 30);
+        libc::mallopt(libc::M_TRIM_THRESHOLD, i32::MAX);
+    }
     let r = Report::new("C10", "router-faults", "fault_enumeration", "E-ASYNC");
     if let Some(cj) = r.replay_case() {
         let case = Case::from_json(&cj);
@@ -488,7 +550,7 @@ fn main() {
     let thorough = r.tier().is_thorough();
     let forced_bound: Option<u32> = r.args.extra_value("--bound").and_then(|s| s.parse().ok());
     // quick: bound 2 for n<=2 and bound 1 for n=3; thorough: bound 3 throughout
-    let bound_for = |c: &Case| -> u32 { if c.kind == ORPHAN_OVERFLOW { return if thorough { 1 } else { 0 }; } forced_bound.unwrap_or(if thorough { 3 } else if c.n <= 2 { 2 } else { 1 }) };
+    let bound_for = |c: &Case| -> u32 { if c.kind == ORPHAN_OVERFLOW || c.prefill > 0 { return if thorough { 1 } else { 0 }; } forced_bound.unwrap_or(if thorough { 3 } else if c.n <= 2 { 2 } else { 1 }) };
     let bound = forced_bound.unwrap_or(if thorough { 3 } else { 1 });
     let audit_every: u64 = if thorough { 16 } else { 4 };
     let all = cases(thorough);
@@ -511,6 +573,9 @@ fn main() {
                 case_mixed.store(true, Ordering::Relaxed);
             }
             r_ref.counters.add(&format!("executions_kind_{}", case.kind), 1);
+            if case.prefill > 0 {
+                r_ref.counters.add("executions_with_stream_ids_exhausted_or_nearly(prefill 32768-j)", 1);
+            }
             if !run.cut_class.is_empty() {
                 r_ref.counters.add(&format!("executions_cut_{}", run.cut_class), 1);
             }
@@ -580,7 +645,7 @@ fn main() {
     for c in all.iter().filter(|c| c.n == 3 && c.answer.len() == 2).take(2) {
         r.sample(c.to_json(&[]));
     }
-    r.set_rule(&format!("E-ASYNC fault enumeration on the real Connection::router: n=1..3 requests in flight x ordered subsets of answered requests ({}) x EVERY cut offset 0..=len of the response byte stream x {{eof, read-error, write-error(+a later request), silence with keep-alive {KEEPALIVE_INTERVAL_MS}/{KEEPALIVE_TIMEOUT_MS}ms and virtual time advanced past both, silence after one answered keep-alive}} and, after every whole number of frames, x {{garbage header, version 3, client-direction bit, unknown opcode, frame on a stream nobody waits on, second answer on an answered stream, negative stream, event frame}}; plus the driver's own give-up (1030 abandoned requests unanswered for over a second) per answered subset; x a late request after the fault; every case explored by E-DFS over task scheduling and fault timing (fault together with / after the bytes) up to deviation bound {bound} (n=3) / {} (n<=2). evaluations = executions; distinct_nontrivial = distinct cases in which at the fault some request was completely or partially answered while another (or the same) was still owed. replays for the determinism audit: 1 in {audit_every} executions, full observation trace compared.", "all 1+2+5+16 of them; write coalescing yield/off (thorough: +1ms, + keep-aliver armed during the other faults)", if thorough { bound } else { bound + 1 }));
+    r.set_rule(&format!("E-ASYNC fault enumeration on the real Connection::router: n=1..3 requests in flight x ordered subsets of answered requests ({}) x EVERY cut offset 0..=len of the response byte stream x {{eof, read-error, write-error(+a later request), silence with keep-alive {KEEPALIVE_INTERVAL_MS}/{KEEPALIVE_TIMEOUT_MS}ms and virtual time advanced past both, silence after one answered keep-alive}} and, after every whole number of frames, x {{garbage header, version 3, client-direction bit, unknown opcode, frame on a stream nobody waits on, second answer on an answered stream, negative stream, event frame}}; plus the driver's own give-up (1030 abandoned requests unanswered for over a second) per answered subset; plus stream-id exhaustion x silent stall x keep-alive (router map pre-filled by 32768-j real allocate calls, j=0,1,2, 1..2 callers, every pre-filled handler must be failed too); x a late request after the fault; every case explored by E-DFS over task scheduling and fault timing (fault together with / after the bytes) up to deviation bound {bound} (n=3) / {} (n<=2). evaluations = executions; distinct_nontrivial = distinct cases in which at the fault some request was completely or partially answered while another (or the same) was still owed. replays for the determinism audit: 1 in {audit_every} executions, full observation trace compared.", "all 1+2+5+16 of them; write coalescing yield/off (thorough: +1ms, + keep-aliver armed during the other faults)", if thorough { bound } else { bound + 1 }));
     r.assume("write error alone is invisible to a router that has nothing to write: that kind always adds a later request, which must make the router notice");
     r.assume("select!-branch randomness inside the router is audited by trace-equal replays, not owned");
     r.finish();
